@@ -551,6 +551,26 @@ def run(ctx):
         idx = next((i for i, e in enumerate(s) if e["k"] == "str" and wordlike([e["v"]])), None)
         if idx is not None:
             ctx.inst("C10.R4", "keyword-rule=%s" % n, guard_after(s, idx), "keyword %r followed by a guard: %s" % (s[idx]["v"], guard_after(s, idx)), "blots-core/src/grammar.pest")
+    # a word the grammar reads as a literal or keyword is read in one spelling only: identifier is case-sensitive, so a
+    # case-insensitive keyword (`^"true"`) turns every other casing of it (`True`, `NULL`) from a plain name into that keyword
+    def insens_words(rname, seen=None):
+        seen = seen or set()
+        if rname in seen or rname not in G.rules:
+            return []
+        seen.add(rname)
+        out = [x["v"] for x in G.walk(G.expr(rname)) if x["k"] == "insens" and x["v"] and (x["v"][0].isalpha() or x["v"][0] == "_")]
+        for r_ in G.refs(G.expr(rname)):
+            if r_ in G.rules and G.ty(r_) == "silent":
+                out += insens_words(r_, seen)
+        return out
+    kw_rules = list(term[:ident_pos]) + G.alt_names("natural_infix_op") + G.alt_names("natural_prefix_op") + ["output_declaration", "return_statement", "reserved_word"]
+    for rn_ in sorted(set(kw_rules)):
+        if rn_ not in G.rules:
+            continue
+        ws_ = insens_words(rn_)
+        if ws_:
+            ctx.inst("C10.R4", "keyword-rule=%s#case-sensitive" % rn_, False, "words read case-insensitively: %s - identifier is case-sensitive, so other casings of these words are bindable names that can no longer be read back" % sorted(set(ws_)), "blots-core/src/grammar.pest")
+    ctx.inst("C10.R4", "keywords#case-sensitive", not any(insens_words(r_) for r_ in kw_rules if r_ in G.rules), "case-insensitive word literals in the %d keyword / literal rules: %s" % (len(set(kw_rules)), sorted({w_ for r_ in kw_rules if r_ in G.rules for w_ in insens_words(r_)}) or "none"), "blots-core/src/grammar.pest")
     # identifier excludes exactly whole reserved words
     ids = G.seq(G.expr("identifier"))
     okid = ids[0]["k"] == "neg" and G.seq(ids[0]["e"])[0] == {"k": "ident", "v": "reserved_word"} and len(G.seq(ids[0]["e"])) == 2 and G.seq(ids[0]["e"])[1] == {"k": "neg", "e": {"k": "ident", "v": "identifier_rest"}}
